@@ -316,6 +316,7 @@ def profile_errors(rnd, tier):
             if pend == 'ch' and rnd.random() < 0.6:
                 # the classic: consuming from (or polling) a queue that does not exist - these
                 # calls wait for their answer holding the channel's own lock
+                g.serial -= 1          # no declare is issued: its serial is not used up
                 steps.append((c, rnd.choice([('consume', b'nq'), ('get',)]),
                               [fr] if rnd.random() < 0.5 else [[], fr]))
             else:
